@@ -20,7 +20,7 @@ mod builtins;
 #[path = "../c10/conc.rs"]
 mod conc;
 
-use builtins::{Arg, Case, canon_kind, make_caller};
+use builtins::{Arg, Case, canon_kind, make_caller_at};
 use roto::{FileTree, Runtime};
 use rotov_harness::driver::Driver;
 use rotov_harness::scalar::*;
@@ -352,7 +352,7 @@ fn arith_batch_worker(rep: &mut Report, list: &str, from: usize, n: usize) {
 // -------------------------------------------------------------------- built-ins
 
 fn case_json(c: &Case) -> J {
-    json!({"kind": "builtin", "builtin": c.name, "id": c.id, "class": c.class, "src": c.src, "sig": c.sig,
+    json!({"kind": "builtin", "builtin": c.name, "id": c.id, "class": c.class, "src": c.src, "entry": c.entry, "sig": c.sig,
            "args": c.args.iter().map(|a| a.encode()).collect::<Vec<_>>()})
 }
 
@@ -409,8 +409,10 @@ fn builtin_part(rep: &mut Report, viol: &mut Viol, drv: &mut Driver, seed: u64, 
             pred[*i] = Some(a);
         }
     }
-    let singles: Vec<usize> = (0..cases.len()).filter(|i| pred[*i].as_deref() == Some("panic") || cases[*i].solo).collect();
-    let batched: Vec<usize> = (0..cases.len()).filter(|i| pred[*i].as_deref() != Some("panic") && !cases[*i].solo).collect();
+    // predicted to kill the process: `panic` (abort inside the trampoline) or `segv` (call through a null vtable slot)
+    let kill = |p: &Option<String>| matches!(p.as_deref(), Some("panic") | Some("segv"));
+    let singles: Vec<usize> = (0..cases.len()).filter(|i| kill(&pred[*i]) || cases[*i].solo).collect();
+    let batched: Vec<usize> = (0..cases.len()).filter(|i| !kill(&pred[*i]) && !cases[*i].solo).collect();
     // --- predicted panics and solo cases (self-referential arguments): one worker each, short timeout
     let jobs: Vec<Vec<String>> = singles.iter().map(|i| one_job(&case_json(&cases[*i]))).collect();
     let ended = run_parallel(&jobs, Duration::from_secs(20));
@@ -423,7 +425,7 @@ fn builtin_part(rep: &mut Report, viol: &mut Viol, drv: &mut Driver, seed: u64, 
         }
         rep.hist("builtin-arg-class", format!("{} {}", c.name, c.class));
         match &e {
-            Ended::Exit(0, out) if pred[*i].as_deref() != Some("panic") => {
+            Ended::Exit(0, out) if !kill(&pred[*i]) => {
                 let r = out.trim().strip_prefix("RESULT ").unwrap_or(out.trim()).to_string();
                 rep.hist("builtin-outcome", canon_kind(&r));
                 rep.class(format!("builtin|{}|{}|{}", c.name, c.class, canon_kind(&r)));
@@ -440,8 +442,8 @@ fn builtin_part(rep: &mut Report, viol: &mut Viol, drv: &mut Driver, seed: u64, 
             Ended::Exit(0, out) => {
                 rep.class(format!("builtin|{}|{}|returned", c.name, c.class));
                 rep.mismatch(
-                    "Model/Builtins predicts a panic, the real built-in returned",
-                    json!({"case": case_json(c), "lean": "panic", "real": out.trim()}),
+                    "Model/Builtins predicts a panic / a call through a null vtable slot, the real built-in returned",
+                    json!({"case": case_json(c), "lean": pred[*i], "real": out.trim()}),
                 );
             }
             other => {
@@ -514,7 +516,9 @@ fn builtin_batch_worker(rep: &mut Report, seed: u64, thorough: bool, list: &str,
     let cases = builtins::cases(seed, thorough);
     let text = std::fs::read_to_string(list).expect("builtin list");
     let lines: Vec<&str> = text.lines().collect();
-    let mut cache: HashMap<String, Result<builtins::Caller, String>> = HashMap::new();
+    // one compiled package per script, one caller per (script, entry function)
+    let mut pkgs: HashMap<String, Result<roto::Package<roto::NoCtx>, String>> = HashMap::new();
+    let mut cache: HashMap<(String, &'static str), Result<builtins::Caller, String>> = HashMap::new();
     let skip: BTreeSet<String> = std::fs::read_to_string(format!("{list}.skip")).unwrap_or_default().lines().map(|l| l.to_string()).collect();
     for k in from..(from + n).min(lines.len()) {
         let (i, expected) = lines[k].split_once(' ').unwrap();
@@ -523,14 +527,19 @@ fn builtin_batch_worker(rep: &mut Report, seed: u64, thorough: bool, list: &str,
             rep.hist("builtin-not-run(script killed three workers already)", c.id.clone());
             continue;
         }
-        if !cache.contains_key(&c.src) {
-            let f = compile(&c.src).and_then(|mut p| make_caller(&mut p, c.sig));
+        let ck = (c.src.clone(), c.entry);
+        if !cache.contains_key(&ck) {
+            let pkg = pkgs.entry(c.src.clone()).or_insert_with(|| compile(&c.src));
+            let f = match pkg {
+                Ok(p) => make_caller_at(p, c.sig, c.entry),
+                Err(e) => Err(e.clone()),
+            };
             if let Err(e) = &f {
                 rep.mismatch("generated script does not compile", json!({"case": case_json(c), "error": e}));
             }
-            cache.insert(c.src.clone(), f);
+            cache.insert(ck.clone(), f);
         }
-        let Ok(f) = &cache[&c.src] else { continue };
+        let Ok(f) = &cache[&ck] else { continue };
         println!("START {k}");
         let r = f(&c.args);
         rep.evaluations += 1;
@@ -626,7 +635,7 @@ fn run_one(case: &J) -> Result<String, String> {
             let args: Vec<Arg> = case["args"].as_array().ok_or("args")?.iter()
                 .map(|a| Arg::decode(a.as_str().unwrap_or(""))).collect::<Result<_, _>>()?;
             let mut pkg = compile(src)?;
-            let f = make_caller(&mut pkg, sig)?;
+            let f = make_caller_at(&mut pkg, sig, case["entry"].as_str().unwrap_or("main"))?;
             Ok(f(&args))
         }
         Some("conc") => conc::run(case),
